@@ -72,6 +72,8 @@ structure WInvX (x : Option Nat) (w : World) : Prop where
   /-- SUBSCRIBE/UNSUBSCRIBE requests exist only with a running retry timer (they never survive a connection) -/
   subArmed : ∀ e ∈ w.ents, (e.box = .sub ∨ e.box = .unsub) → (w.req e.rid).alarm = none →
       ∃ p pr, x = some p ∧ w.protos.get? p = some pr ∧ pr.addr = e.addr
+  /-- the factory was made for one of the three profiles (subscriber, publisher, both) -/
+  profileOk : w.profile = 1 ∨ w.profile = 2 ∨ w.profile = 3
   /-- receive buffers hold bytes -/
   bufOk : ∀ p pr, w.protos.get? p = some pr → Bytes.WF pr.buffer
 
@@ -102,8 +104,8 @@ def Env (w : World) : Op → Prop
   | .settimeout p _ => Exists w p
   | .setbw p _ _ => Exists w p
 
-theorem WInv.init (profile : Nat) : WInv (World.init profile) := by
-  constructor <;> simp [World.init, Pending, Dict.get?]
+theorem WInv.init (profile : Nat) (hp : profile = 1 ∨ profile = 2 ∨ profile = 3) : WInv (World.init profile) := by
+  constructor <;> first | exact hp | simp [World.init, Pending, Dict.get?]
 
 theorem WInvX.weaken {x : Option Nat} {w : World} (h : WInv w) : WInvX x w :=
   { h with connected := fun p pr hp _ => h.connected p pr hp (by simp),
